@@ -23,7 +23,7 @@
 use std::collections::VecDeque;
 use std::fmt;
 
-use crate::desc::{ArrDesc, SupDesc};
+use crate::desc::{ArrDesc, CostDesc, SupDesc};
 use crate::rng::{splitmix, Fingerprint};
 
 #[derive(Clone, Copy, Debug, PartialEq, Eq, PartialOrd, Ord)]
@@ -44,13 +44,24 @@ pub struct CbDesc {
     pub succ: Option<usize>,
     /// RTSS'21 analyses: is the polled callback's priority known to the analysis?
     pub known_prio: bool,
+    /// job-cost model handed to the analyses; `None` = `Scalar(wcet)`
+    pub cost: Option<CostDesc>,
+    /// harness side: cyclic per-instance WCET pattern the execution-time source follows (empty =
+    /// every instance may take up to `wcet`)
+    pub pattern: Vec<u64>,
+}
+
+impl CbDesc {
+    pub fn cost_desc(&self) -> CostDesc {
+        self.cost.clone().unwrap_or(CostDesc::Scalar(self.wcet))
+    }
 }
 
 impl fmt::Display for CbDesc {
     fn fmt(&self, f: &mut fmt::Formatter<'_>) -> fmt::Result {
         write!(
             f,
-            "kind={} prio={} wcet={} arr={} succ={} known={}",
+            "kind={} prio={} wcet={} arr={} succ={} known={} cost={} pat={}",
             match self.kind {
                 CbKind::Timer => "timer",
                 CbKind::Polled => "polled",
@@ -59,7 +70,13 @@ impl fmt::Display for CbDesc {
             self.wcet,
             self.arr.as_ref().map(|a| a.to_string()).unwrap_or_else(|| "-".into()),
             self.succ.map(|s| s.to_string()).unwrap_or_else(|| "-".into()),
-            self.known_prio as u8
+            self.known_prio as u8,
+            self.cost.as_ref().map(|c| c.to_string()).unwrap_or_else(|| "-".into()),
+            if self.pattern.is_empty() {
+                "-".to_string()
+            } else {
+                self.pattern.iter().map(|x| x.to_string()).collect::<Vec<_>>().join("+")
+            }
         )
     }
 }
@@ -71,6 +88,8 @@ pub fn parse_cb(rest: &str) -> Result<CbDesc, String> {
     let mut arr = None;
     let mut succ = None;
     let mut known = true;
+    let mut cost = None;
+    let mut pattern = Vec::new();
     for tok in rest.split_whitespace() {
         let (k, v) = tok.split_once('=').ok_or_else(|| format!("bad token '{}'", tok))?;
         match k {
@@ -94,6 +113,19 @@ pub fn parse_cb(rest: &str) -> Result<CbDesc, String> {
                 }
             }
             "known" => known = v != "0",
+            "cost" => {
+                if v != "-" {
+                    cost = Some(crate::desc::parse_cost(v)?)
+                }
+            }
+            "pat" => {
+                if v != "-" {
+                    pattern = v
+                        .split('+')
+                        .map(|x| x.parse::<u64>().map_err(|e| e.to_string()))
+                        .collect::<Result<Vec<u64>, String>>()?
+                }
+            }
             _ => return Err(format!("unknown callback attribute '{}'", k)),
         }
     }
@@ -104,6 +136,8 @@ pub fn parse_cb(rest: &str) -> Result<CbDesc, String> {
         arr,
         succ,
         known_prio: known,
+        cost,
+        pattern,
     })
 }
 
